@@ -493,6 +493,7 @@ class Table(JupyterMixin):
                 for width, column in zip(widths, columns)
             ]
             widths = [_range.maximum or 1 for _range in width_ranges]
+            table_width = sum(widths)
 
         if (table_width < max_width and self.expand) or (
             self.min_width is not None and table_width < (self.min_width - extra_width)
